@@ -24,9 +24,9 @@ package resources
 //@   trusted
 //@   note generated deepcopy of map[ResourceName]Quantity in k8s.io/api (library, no body loaded)
 //@   fresh
-//@   ensures true
-//@   ensures true
-//@   ensures true
+//@   ensures (in == nil) == (result == nil)
+//@   ensures forall k v1.ResourceName :: (k in result) == (k in in)
+//@   ensures forall k v1.ResourceName :: result[k] == in[k]
 //@ end
 
 // Property C20: "... equal the sums over its pods ..." - the sum of two resource lists is the
@@ -38,6 +38,8 @@ package resources
 //@     invariant total != nil && total != left && total != right && fresh(total)
 //@     invariant forall k v1.ResourceName :: (k in total) == ((k in left) || ((k in right) && (k in visited)))
 //@     invariant forall k v1.ResourceName :: total[k] == left[k] + ite(k in visited, right[k], 0.0)
+//@     # frame of pre-existing Quantity cells (the loop only writes the local `sum`)
+//@     invariant forall p *resource.Quantity :: old(allocated(p)) ==> *p == old(*p)
 //@   ensures [nonnil] result != nil
 //@   ensures [keys] forall k v1.ResourceName :: (k in result) == ((k in left) || (k in right))
 //@   ensures [sum] forall k v1.ResourceName :: result[k] == left[k] + right[k]
